@@ -260,3 +260,117 @@ class VariableRT(Harness):
 
 
 HARNESSES = [VariableRT(), AtLeastRT(), AtMostRT(), AllRT(), AnyRT(), XorRT(), XNorRT(), ImplyRT()]
+
+
+# ------------------------------------------------------------------------------------------------------------------
+# configurator classes (defaults and therefore default priorities survive the round trip)
+# ------------------------------------------------------------------------------------------------------------------
+
+def cc_classes(repo):
+    cc = repo.load("puan.modules.configurator")
+    pg = repo.plog
+    return cc, [repo.puan.variable, pg.AtLeast, pg.AtLeast, pg.AtMost, pg.All, cc.Any, cc.Xor, pg.Not, pg.XNor, pg.Imply]
+
+
+def _tagged(node):
+    """does the node carry the -2 tagged non-default branch (cc.Any restructuring)?"""
+    props = node.propositions
+    items = props if isinstance(props, list) else [s[1] for s in props.segs if type(s) is not Gen]
+    return any(getattr(x, "prio", None) == -2 for x in items)
+
+
+class CcAnyRT(_RT):
+    name = "json:cc.Any"
+    function = "Any.to_json"
+    module = "puan.modules.configurator"
+    functions = ["Any.to_json", "Any.from_json", "Any.__init__"]
+    xcheck = 0
+
+    def cases(self):
+        return [{"id": "explicit", "default": d} for d in (None, "d")]
+
+    def setup(self, c, case):
+        fam, xs = int_children(c)
+        c.symbolic_ids = True
+        # wf: child ids are pairwise distinct, so at most one child is the default
+        from pyvc.nodes import fsum, ite
+        n_def = fsum(xs, lambda x: ite(band(x.atom_truth(), x.id == "d"), 1, 0))
+        c.assume_global(n_def <= 1)
+        return {"xs": xs}
+
+    def run(self, c, st):
+        cc, classes = cc_classes(c.repo)
+        d = c.state_case["default"]
+        x = cc.Any(*st["xs"], default=[d] if d else None, variable="A")
+        st["x"] = x
+        js = x.to_json()
+        st["js"] = js
+        return c.repo.plog.from_json(js, classes)
+
+    def ensures(self, c, st, res):
+        x, env = st["x"], c.env
+        out = [("rt.truth", truth(res, env) == truth(x, env)), ("rt.id-kept", res.id == x.id)]
+        if c.state_case["default"]:
+            out.append(("rt.default-kept", [v.id for v in getattr(res, "default", [])] == [v.id for v in x.default]))
+            out.append(("rt.default-branch-tag-kept", _tagged(res) == _tagged(x)))
+        return out
+
+    def concretise(self, case, k, model, c, st):
+        return None
+
+
+class CcXorRT(CcAnyRT):
+    name = "json:cc.Xor"
+    function = "Xor.to_json"
+    functions = ["Xor.to_json", "Xor.from_json", "Xor.__init__"]
+
+    def run(self, c, st):
+        cc, classes = cc_classes(c.repo)
+        d = c.state_case["default"]
+        x = cc.Xor(*st["xs"], default=[d] if d else None, variable="A")
+        st["x"] = x
+        js = x.to_json()
+        st["js"] = js
+        return c.repo.plog.from_json(js, classes)
+
+    def ensures(self, c, st, res):
+        x, env = st["x"], c.env
+        out = [("rt.truth", truth(res, env) == truth(x, env)), ("rt.id-kept", res.id == x.id)]
+        if c.state_case["default"]:
+            out.append(("rt.default-kept", [v.id for v in getattr(res, "default", [])] == [v.id for v in x.default]))
+        return out
+
+
+class StingyRT(_RT):
+    name = "json:StingyConfigurator"
+    function = "StingyConfigurator.to_json"
+    module = "puan.modules.configurator"
+    functions = ["StingyConfigurator.to_json", "StingyConfigurator.from_json", "StingyConfigurator.__init__"]
+    xcheck = 0
+
+    def cases(self):
+        return [{"id": "explicit"}]
+
+    def setup(self, c, case):
+        fam, xs = int_children(c)
+        return {"xs": xs}
+
+    def run(self, c, st):
+        cc, classes = cc_classes(c.repo)
+        x = cc.StingyConfigurator(*st["xs"], id="cfg")
+        st["x"] = x
+        js = x.to_json()
+        st["js"] = js
+        return cc.StingyConfigurator.from_json(js)
+
+    def ensures(self, c, st, res):
+        x, env = st["x"], c.env
+        cc, _ = cc_classes(c.repo)
+        return [("rt.truth", truth(res, env) == truth(x, env)), ("rt.id-kept", res.id == x.id),
+                ("rt.class", type(res) is cc.StingyConfigurator)]
+
+    def concretise(self, case, k, model, c, st):
+        return None
+
+
+HARNESSES += [CcAnyRT(), CcXorRT(), StingyRT()]
